@@ -4,3 +4,6 @@ register_simp_attr awp_simp
 
 /-- simp set for symbolic evaluation of `cwp` (first token at the BOM end) -/
 register_simp_attr cwp_simp
+
+/-- simp set for symbolic evaluation of `ChanR` (the channel table) -/
+register_simp_attr chan_simp
